@@ -41,7 +41,11 @@ def _vars_fn(weak):
     body = " ".join("%s=${%s-<unset>}" % (v, v) for v in VARPOOL if v not in weak)
     return "__vars() {\n    echo \"%s\"\n}\n" % body
 
-def _checkout_script(name, salt, weak=()):
+def _checkout_script(name, salt, weak=(), tools=()):
+    return _checkout_script0(name, salt, weak) + "".join(
+        'echo "tool {t}:" >> src-out.txt; __dump "${{BOB_TOOL_PATHS[{t}]}}" >> src-out.txt\n'.format(t=t) for t in tools)
+
+def _checkout_script0(name, salt, weak=()):
     # Bob re-runs a changed checkout script in place and never deletes anything from
     # a source workspace (bob-clean(1): "workspaces that hold source code are never
     # deleted"), so -- unlike build and package scripts, whose workspaces Bob prunes --
@@ -250,6 +254,8 @@ def gen_project(rng, nmin=3, nmax=7, features=None):
             r["buildTools"] = sorted(set(rng.sample(vis, rng.randint(0, len(vis)))))
             if rng.random() < 0.3:
                 r["packageTools"] = sorted(set(rng.sample(vis, rng.randint(0, len(vis)))))
+            if "checkouttools" in features and r["src"] == "script" and rng.random() < 0.6:
+                r["checkoutTools"] = sorted(set(rng.sample(vis, rng.randint(1, len(vis)))))
     if "twins" in features and n >= 3:
         # two recipes with identical content: equal Variant-Ids (and Build-Ids) under different
         # recipe names -- separate workspaces in develop mode, one artifact in an archive
@@ -344,7 +350,9 @@ def _yaml_recipe(name, r, model):
         d["checkoutSCM"] = {"scm": "import", "url": "src/%s" % name, "prune": True}
     elif r["src"] == "script":
         d["checkoutDeterministic"] = True
-        d["checkoutScript"] = _checkout_script(name, r["salt"]["checkout"], r["buildVarsWeak"])
+        d["checkoutScript"] = _checkout_script(name, r["salt"]["checkout"], r["buildVarsWeak"], r.get("checkoutTools", ()))
+        if r.get("checkoutTools"):
+            d["checkoutTools"] = list(r["checkoutTools"])
     if r.get("fingerprint"):
         # host dependent result, declared to Bob through a fingerprint: both read the
         # emulated host id from a file outside the project
@@ -691,3 +699,5 @@ def _fix_tools(m):
         vis = _visible_tools(m, name)
         r["buildTools"] = [t for t in r["buildTools"] if t in vis]
         r["packageTools"] = [t for t in r["packageTools"] if t in vis]
+        if r.get("checkoutTools"):
+            r["checkoutTools"] = [t for t in r["checkoutTools"] if t in vis]
